@@ -444,12 +444,20 @@ template <> struct Tr<void*> {
   static void fill(void*& o, Tape& t) { o = gen_intp(t); }
   static void ora(Out& o, void* const& v) { if (!v) { o.null(); return; } o.addr(v); }
 };
-template <> struct Tr<std::unique_ptr<int>> {  // C++17: no operator<<  => dump of the object
-  static constexpr Kind kind = K_HEX;
+// The harness's own test for "an operator<< exists" (C18: "uses operator<< ... when one exists"). The standard library
+// gained operator<<(ostream&, unique_ptr const&) in C++20 (it prints get()); before that the object is hex-dumped.
+template <typename T, typename = void> struct h_streamable : std::false_type {};
+template <typename T> struct h_streamable<T, decltype(void(std::declval<std::ostream&>() << std::declval<const T&>()))> : std::true_type {};
+template <> struct Tr<std::unique_ptr<int>> {
+  static constexpr bool streamable = h_streamable<std::unique_ptr<int>>::value;
+  static constexpr Kind kind = streamable ? K_STREAM : K_HEX;
   static std::string name() { return "unique_ptr"; }
   static bool null(const std::unique_ptr<int>& v) { return !v; }
   static void fill(std::unique_ptr<int>& o, Tape& t) { uint64_t v = t.next(); if (v % 3 == 0) o.reset(); else o.reset(new int(static_cast<int>(v / 3))); }
-  static void ora(Out& o, const std::unique_ptr<int>& v) { if (!v) { o.null(); return; } o.hex(&v, sizeof v, "<unique_ptr bytes>"); }
+  static void ora(Out& o, const std::unique_ptr<int>& v) {
+    if (!v) { o.null(); return; }
+    if (streamable) o.addr(v.get()); else o.hex(&v, sizeof v, "<unique_ptr bytes>");
+  }
 };
 template <> struct Tr<std::shared_ptr<int>> {  // has operator<< (prints get())
   static constexpr Kind kind = K_STREAM;
